@@ -5,7 +5,7 @@ import os
 from .common import NCPU, Undecided
 from .c14 import extract_histories
 
-KINDS = {"shaper": (4, 5), "face": (4, 5), "wrap": (3, 4), "split": (4, 5), "seg": (4, 5)}
+KINDS = {"shaper": (3, 4), "face": (4, 5), "wrap": (3, 4), "split": (4, 5), "seg": (4, 5)}
 
 
 def run(c, a):
